@@ -5,6 +5,9 @@
 package c10b
 
 import (
+	"fmt"
+	"runtime"
+	"strings"
 	"testing"
 
 	core "github.com/cloudflare/circl/zz_verif/c10core"
@@ -15,7 +18,34 @@ type Entry = core.Entry
 var registry []Entry
 
 // Register adds entries (called from init functions of reg_*_test.go).
-func Register(es ...Entry) { registry = append(registry, es...) }
+func Register(es ...Entry) {
+	for i := range es {
+		es[i].Call = stableCall(es[i].Call)
+	}
+	registry = append(registry, es...)
+}
+
+// stableCall re-raises an explicit panic whose message has leading or trailing
+// white space (tkn's "misuse of addDuals: …\n") with the white space trimmed:
+// vlib.PanicClass keeps a trailing newline in the finding key, and such a key
+// can not be matched by a line of the known-findings file. Runtime errors and
+// all other panic values are re-raised unchanged (the frames of the original
+// panic are still on the stack when the outer recover() takes the trace).
+func stableCall(f func([]byte)) func([]byte) {
+	return func(b []byte) {
+		defer func() {
+			if r := recover(); r != nil {
+				if _, isRuntime := r.(runtime.Error); !isRuntime {
+					if s := fmt.Sprint(r); strings.TrimSpace(s) != s {
+						panic(strings.TrimSpace(s))
+					}
+				}
+				panic(r)
+			}
+		}()
+		f(b)
+	}
+}
 
 func seedBytes(n int, tag uint64) []byte { return core.SeedBytes(n, tag) }
 func mustB(b []byte, err error) []byte   { return core.MustB(b, err) }
